@@ -129,7 +129,12 @@ func flight3Parse(
 		state.RemoteRandom = serverHelloMsg.Random
 		cfg.Log.Tracef("[handshake] use cipher suite: %s", selectedCipherSuite.String())
 
-		if len(serverHelloMsg.SessionID) > 0 && bytes.Equal(state.SessionID, serverHelloMsg.SessionID) {
+		// The ServerHello echoes an offered session only while the master secret
+		// of that offer is still held: this parser runs again for every datagram
+		// of the server flight, and once a fresh session ID has been adopted
+		// below it must not be mistaken for the echo of an offered one.
+		if len(serverHelloMsg.SessionID) > 0 && len(state.MasterSecret) > 0 &&
+			bytes.Equal(state.SessionID, serverHelloMsg.SessionID) {
 			next, dtlsAlert, err := handleResumption(ctx, conn, state, cache, cfg)
 			if next != 0 && err == nil {
 				state.CommitNegotiatedExtensions(decision)
